@@ -20,6 +20,7 @@ RULE = (
     "(Jacobian blocks of 1..64 entries, dense rows, rows with more temporaries than entries); filters that share sensor KEYS but not sensor expressions are built in one process and each checked after all were built. One ui.Model object (and one set of noise / sensor dictionaries) is also compiled four times with different calibration maps and CSE settings; every compiled object is checked against ITS calibration right after compiling and again after all were compiled. "
     "distinct = distinct definition records; non-trivial = some Jacobian entry depends on the evaluation point."
     " After the first compile of the shared objects the caller edits its own dictionaries (other expressions, noises, calibration values) before the filter is used for the first time: the Jacobians must be the partials of the functions the filter evaluates."
+    " Programs with shared sub-expressions nested inside other shared sub-expressions (nest3, chain3..5, manytemps13, dtshare) and definitions with a declared but unused control / calibration value."
 )
 ASSUMPTIONS = [
     "grammar/depth/grid bounds as C01; non-differentiable or singular points skipped and counted",
